@@ -47,3 +47,54 @@ package metrics
 //@   modifies nothing
 //@   assert before call WithLabelValues #0 : [labels] len(arg1) == 3 + len(metrics.staticMetricLabelValues) && arg1[0] == name && arg1[1] == stage && arg1[2] == result
 //@   assert before call WithLabelValues #0 : [static] forall j int :: 0 <= j && j < len(metrics.staticMetricLabelValues) ==> arg1[3 + j] == metrics.staticMetricLabelValues[j]
+//@
+//@ // ---- C16: label names and static label values are both enumerated in the increasing order of the static map's
+//@ // keys, so name i is paired with its own value. nthKey(m, i) is the i-th key of m in increasing order. The step
+//@ // "a strictly increasing enumeration of a key set is unique" (Mathlib: List.eq_of_perm_of_sorted) is the one
+//@ // explicit assumption below; everything else about the loops is proved.
+//@ ghost var G16setupNames []string
+//@ ghost var G16iterNames []string
+//@
+//@ func sortedKeys
+//@   props C16
+//@   modifies nothing
+//@   loop 0 invariant [fresh] fresh(keys)
+//@   loop 0 invariant [keys] forall j int :: 0 <= j && j < len(keys) ==> indom(staticMetrics, keys[j]) && visited(keys[j])
+//@   ghost after call sort.Strings : assume forall j int :: 0 <= j && j < len(keys) ==> keys[j] == nthKey(staticMetrics, j) && indom(staticMetrics, keys[j])
+//@   ghost after call sort.Strings : assume len(keys) == len(staticMetrics)
+//@   ensures [enumeration] len(result) == len(staticMetrics) && (forall j int :: 0 <= j && j < len(result) ==> result[j] == nthKey(staticMetrics, j) && indom(staticMetrics, result[j]))
+//@   ensures [fresh] fresh(result)
+//@
+//@ func getStaticMetricLabelKeys
+//@   props C16
+//@   modifies nothing
+//@   ensures [enumeration] len(result) == len(staticMetrics) && (forall j int :: 0 <= j && j < len(result) ==> result[j] == nthKey(staticMetrics, j))
+//@
+//@ func getStaticMetricLabelValues
+//@   props C16
+//@   modifies nothing
+//@   loop 0 invariant [shape] -1 <= rangeindex && rangeindex < len(rangeexpr) && len(data) == rangeindex + 1 && fresh(data)
+//@   loop 0 invariant [keys] len(rangeexpr) == len(staticMetrics) && (forall j int :: 0 <= j && j < len(rangeexpr) ==> rangeexpr[j] == nthKey(staticMetrics, j) && indom(staticMetrics, rangeexpr[j]))
+//@   loop 0 invariant [values] forall j int :: 0 <= j && j <= rangeindex ==> data[j] == staticMetrics[nthKey(staticMetrics, j)]
+//@   ensures [own-values] len(result) == len(staticMetrics) && (forall j int :: 0 <= j && j < len(result) ==> result[j] == staticMetrics[nthKey(staticMetrics, j)])
+//@
+//@ func buildMetrics
+//@   props C16
+//@   modifies G16setupNames, G16iterNames
+//@   ghost before call prometheus.NewSummaryVec #0 : G16setupNames = arg1
+//@   ghost before call prometheus.NewSummaryVec #1 : G16iterNames = arg1
+//@   ensures [setup-names] len(G16setupNames) == 2 + len(staticMetrics) && G16setupNames[0] == "test" && G16setupNames[1] == "result" &&
+//@           (forall j int :: 0 <= j && j < len(staticMetrics) ==> G16setupNames[2 + j] == nthKey(staticMetrics, j))
+//@   ensures [iteration-names] len(G16iterNames) == 3 + len(staticMetrics) && G16iterNames[0] == "test" && G16iterNames[1] == "stage" && G16iterNames[2] == "result" &&
+//@           (forall j int :: 0 <= j && j < len(staticMetrics) ==> G16iterNames[3 + j] == nthKey(staticMetrics, j))
+//@   ensures [built] result != nil && fresh(result)
+//@
+//@ func NewInstance
+//@   props C16
+//@   requires registry != nil
+//@   modifies G16setupNames, G16iterNames
+//@   ensures [paired] len(result.staticMetricLabelValues) == len(staticMetrics) && len(G16setupNames) == 2 + len(staticMetrics) && len(G16iterNames) == 3 + len(staticMetrics) &&
+//@           (forall j int :: 0 <= j && j < len(staticMetrics) ==> result.staticMetricLabelValues[j] == staticMetrics[G16setupNames[2 + j]] &&
+//@                                                               result.staticMetricLabelValues[j] == staticMetrics[G16iterNames[3 + j]])
+//@   ensures [fixed-names] G16setupNames[0] == "test" && G16setupNames[1] == "result" && G16iterNames[0] == "test" && G16iterNames[1] == "stage" && G16iterNames[2] == "result"
+//@   ensures [enabled] result != nil && result.IterationMetricsEnabled == iterationMetricsEnabled && result.Registry == registry
